@@ -439,6 +439,13 @@ func spec_itoa(n int) string { return strconv.Itoa(n) }
 //@   loop 2 invariant forall j int :: 0 <= j && j < it2 && has(registeredGenerators, names[j]) ==> elem(registeredGenerators[names[j]], generators)
 //@   note asked by name: exactly the registered generators among the names (unknown names are skipped); asked for all: every registered generator exactly once. The ORDER of the all-generators answer is map order - harmless by C05 (generators do not see each other: one file, one instance, one import table per generator and package), stated here rather than hidden
 
+//@ func handler.Handle
+//@   props C02
+//@   requires h != nil
+//@   assigns *
+//@   loop 1 invariant h.pkgs != nil
+//@   note safety sweep of the log handler (no slice / index out of range, no nil map store): pkgExecute reports its final error through this handler from a DEFERRED function, so a panic here would replace the error Execute has to return (C02: a failed generation is reported as an error naming generator and package or the syntax position)
+
 //@ func NewContext
 //@   props C08 C04 C05 C02
 //@   requires args != nil
@@ -485,7 +492,7 @@ func spec_ctxOf(e Executor) *gengoCtx { c, _ := e.(*gengoCtx); return c }
 //@   ensures result == c.genfile
 
 //@ func gengoCtx.Defer
-//@   props C06 C02 C05:frame
+//@   props C06 C02 C05:frame C07
 //@   requires c != nil
 //@   assigns c.defers
 //@   ensures eq(c.defers, append(old(c.defers), fn))
